@@ -715,12 +715,74 @@ var rR9s = RuleRef{Name: "R9s", Doc: "stored strings are immutable: readers hand
 }}
 
 // R18s: the "auto" marker of a stream ID never reaches the stored ID.
-var rR18s = RuleRef{Name: "R18s", Doc: "the auto marker (-1) of a stream ID part never reaches the stream: on every path of Stream.AddEntry to the append of the ID, each part was either assigned or found different from -1", Run: func(c *C) {
-	obs := []ordOb{
-		{Pkg: "memdb", Fn: "Stream.AddEntry", At: "call:builtin.append", AllEdges: true, NeedAny: []string{"W|time", "F|cmp:-1==time"}, What: "the time part appended to the stream is not the auto marker"},
-		{Pkg: "memdb", Fn: "Stream.AddEntry", At: "call:builtin.append", AllEdges: true, NeedAny: []string{"W|seqNum", "F|cmp:-1==seqNum"}, What: "the sequence part appended to the stream is not the auto marker"},
+var rR18s = RuleRef{Name: "R18s", Doc: "the auto marker (-1) of a stream ID part never reaches the stream: on every path of Stream.AddEntry to the point where the ID is put into the stream's ID list (directly or through a helper), each part was either assigned or found different from -1", Run: func(c *C) {
+	fn := c.P.Func("memdb", "Stream.AddEntry")
+	if fn == nil {
+		c.Undecided("R18s", "anchor (*Stream).AddEntry")
+		return
 	}
-	c.checkOrder("R18s", obs)
+	// functions that store to Stream.timeStamps (directly or through a callee, depth <= 2)
+	var storesIDs func(f *ssa.Function, d int) bool
+	storesIDs = func(f *ssa.Function, d int) bool {
+		if f == nil || f.Blocks == nil || d > 2 {
+			return false
+		}
+		for _, b := range f.Blocks {
+			for _, in := range b.Instrs {
+				if st, ok := in.(*ssa.Store); ok {
+					if fa, ok := st.Addr.(*ssa.FieldAddr); ok && namedOf(fa.X.Type()) == "Stream" && fieldName(fa) == "timeStamps" {
+						return true
+					}
+				}
+				if call, ok := in.(*ssa.Call); ok {
+					if cf := callee(call); cf != nil && cf != f && firstParty(cf) && storesIDs(cf, d+1) {
+						return true
+					}
+				}
+			}
+		}
+		return false
+	}
+	of := c.orderFlow(fn, nil, true, "W|time", "W|seqNum", "F|cmp:-1==time", "F|cmp:-1==seqNum")
+	n := 0
+	okT, okS := true, true
+	var where []string
+	for _, b := range fn.Blocks {
+		for _, in := range b.Instrs {
+			hit := false
+			if st, ok := in.(*ssa.Store); ok {
+				if fa, ok := st.Addr.(*ssa.FieldAddr); ok && namedOf(fa.X.Type()) == "Stream" && fieldName(fa) == "timeStamps" {
+					hit = true
+				}
+			}
+			if call, ok := in.(*ssa.Call); ok {
+				if cf := callee(call); cf != nil && cf != fn && firstParty(cf) && storesIDs(cf, 0) {
+					hit = true
+				}
+			}
+			if !hit {
+				continue
+			}
+			states, live := of.States(in)
+			if !live {
+				continue
+			}
+			n++
+			for _, st := range states {
+				if !st["W|time"] && !st["F|cmp:-1==time"] {
+					okT = false
+					where = append(where, c.pos(in.Pos()))
+				}
+				if !st["W|seqNum"] && !st["F|cmp:-1==seqNum"] {
+					okS = false
+					where = append(where, c.pos(in.Pos()))
+				}
+			}
+		}
+	}
+	c.Add("R18s", fnName(fn), "the time part put into the stream is not the auto marker", fn.Pos(), okT && n > 0, "insertion points reached with the part neither assigned nor tested against -1: "+strings.Join(uniq(where), ", "))
+	c.Add("R18s", fnName(fn), "the sequence part put into the stream is not the auto marker", fn.Pos(), okS && n > 0, "insertion points reached with the part neither assigned nor tested against -1: "+strings.Join(uniq(where), ", "))
+	c.Count("R18s_insertion_points", n)
 }}
 
 // R29: what an executor parses out of its command into a local record is used.
@@ -793,3 +855,263 @@ func shortType(t types.Type) string {
 	}
 	return s
 }
+
+// R20v: AVL maintenance discipline (structural part).
+var rR20v = RuleRef{Name: "R20v", Doc: "AVL maintenance, structural part: a recursive tree function that re-links a child (stores n.left / n.right) returns, on every path, through the rebalancing routine or after updating the node's height and consulting its balance (a path that re-links and returns the node as it is leaves stale heights and an unbalanced tree behind); a recursive traversal hands its children to itself (a descending walk that calls the ascending one on its subtrees is not the reverse order); the height field is read only by the balancing code (height is not a subtree size)", Run: func(c *C) {
+	isNodePtr := func(t types.Type) bool { return namedOf(t) == "Node" }
+	selfRec := func(fn *ssa.Function) bool {
+		for _, b := range fn.Blocks {
+			for _, in := range b.Instrs {
+				if call, ok := in.(*ssa.Call); ok {
+					if cf := callee(call); cf != nil && (cf == fn || origin(cf) == origin(fn)) {
+						return true
+					}
+				}
+			}
+		}
+		return false
+	}
+	nRelink := 0
+	balancing := map[string]bool{}
+	for _, fn := range c.P.allFuncs("memdb") {
+		if fn.Blocks == nil || (fn.Origin() != nil && fn.Signature.Recv() == nil) {
+			continue // generic function bodies are analysed once, through their origin (methods of generic types only exist as instances)
+		}
+		touchesNode := false
+		for _, p := range fn.Params {
+			if isNodePtr(p.Type()) {
+				touchesNode = true
+			}
+		}
+		if !touchesNode {
+			continue
+		}
+		// (1) re-link then return through the balancing code
+		relinks := false
+		for _, b := range fn.Blocks {
+			for _, in := range b.Instrs {
+				if st, ok := in.(*ssa.Store); ok {
+					if fa, ok := st.Addr.(*ssa.FieldAddr); ok && isNodePtr(fa.X.Type()) && (fieldName(fa) == "left" || fieldName(fa) == "right") {
+						if _, isNil := st.Val.(*ssa.Const); !isNil {
+							relinks = true
+						}
+					}
+				}
+			}
+		}
+		if relinks && selfRec(fn) {
+			nRelink++
+			of := c.orderFlow(fn, nil, true, "W|left", "W|right", "W|height", "C|rebalance*", "C|balance*")
+			has := func(st Set, pre string) bool {
+				for f := range st {
+					if strings.HasPrefix(f, pre) {
+						return true
+					}
+				}
+				return false
+			}
+			var bad []string
+			for _, b := range fn.Blocks {
+				for _, in := range b.Instrs {
+					ret, ok := in.(*ssa.Return)
+					if !ok {
+						continue
+					}
+					states, live := of.States(ret)
+					if !live {
+						continue
+					}
+					for _, st := range states {
+						if (st["W|left"] || st["W|right"]) && !has(st, "C|rebalance") && !(st["W|height"] && has(st, "C|balance")) {
+							bad = append(bad, c.pos(ret.Pos()))
+							break
+						}
+					}
+				}
+			}
+			c.Add("R20v", fnName(fn), "a path that re-links a child returns through the rebalancing code", fn.Pos(), len(bad) == 0, "returns reached after a child link was stored without rebalance() or a height update plus balance test: "+strings.Join(bad, ", "))
+		}
+		// (2) traversals recurse into themselves
+		if fn.Signature.Recv() != nil && isNodePtr(fn.Signature.Recv().Type()) {
+			var bad []string
+			for _, b := range fn.Blocks {
+				for _, in := range b.Instrs {
+					call, ok := in.(*ssa.Call)
+					if !ok || len(call.Call.Args) == 0 {
+						continue
+					}
+					cf := callee(call)
+					if cf == nil || cf.Signature.Recv() == nil || !isNodePtr(cf.Signature.Recv().Type()) || origin(cf) == origin(fn) {
+						continue
+					}
+					// receiver is a child of the receiver, callee is another recursive Node method with the same signature
+					u, isLoad := call.Call.Args[0].(*ssa.UnOp)
+					if !isLoad {
+						continue
+					}
+					fa, isFA := u.X.(*ssa.FieldAddr)
+					if !isFA || (fieldName(fa) != "left" && fieldName(fa) != "right") {
+						continue
+					}
+					if types.Identical(cf.Signature.Params(), fn.Signature.Params()) && types.Identical(cf.Signature.Results(), fn.Signature.Results()) && selfRec(cf) && fn.Signature.Params().Len() > 0 {
+						bad = append(bad, c.pos(call.Pos())+": "+cf.Name())
+					}
+				}
+			}
+			if selfRec(fn) || len(bad) > 0 {
+				c.Add("R20v", fnName(fn), "a recursive traversal visits its subtrees with itself", fn.Pos(), len(bad) == 0, "children are handed to a different traversal of the same shape: "+strings.Join(bad, ", "))
+			}
+		}
+		_ = balancing
+	}
+	// (1b) the inner rotation of a double rotation is made only for a child that leans the other way
+	if rb := c.P.Func("memdb", "rebalance"); rb != nil {
+		of := c.orderFlow(rb, nil, true, "T|cmp:balance()<0", "T|cmp:0<balance()")
+		for _, b := range rb.Blocks {
+			for _, in := range b.Instrs {
+				st, ok := in.(*ssa.Store)
+				if !ok {
+					continue
+				}
+				fa, ok := st.Addr.(*ssa.FieldAddr)
+				if !ok || !isNodePtr(fa.X.Type()) {
+					continue
+				}
+				call, ok := st.Val.(*ssa.Call)
+				if !ok {
+					continue
+				}
+				cn := callName(call)
+				if i := strings.Index(cn, "["); i >= 0 {
+					cn = cn[:i]
+				}
+				need := ""
+				switch {
+				case fieldName(fa) == "left" && cn == "rotateLeft":
+					need = "T|cmp:balance()<0"
+				case fieldName(fa) == "right" && cn == "rotateRight":
+					need = "T|cmp:0<balance()"
+				default:
+					continue
+				}
+				states, live := of.States(in)
+				good := live
+				for _, s2 := range states {
+					if !s2[need] {
+						good = false
+					}
+				}
+				c.Add("R20v", fnName(rb), "the "+fieldName(fa)+" child is rotated first only when it leans the other way", st.Pos(), good, "the inner rotation must be guarded by a strict test of the child's balance (a child with balance 0 takes the single rotation: the double one leaves the old child unbalanced)")
+			}
+		}
+	} else {
+		c.Undecided("R20v", "anchor memdb.rebalance")
+	}
+	c.Count("R20v_relinking_recursive_functions", nRelink)
+	c.Min("R20v_relinking_recursive_functions", 2)
+	// (3) readers of Node.height
+	allowed := map[string]bool{"height": true, "balance": true, "maxHeight": true, "rotateLeft": true, "rotateRight": true, "rebalance": true, "insert": true, "deleteNode": true, "Init": true, "Debug": true}
+	nReads := 0
+	for _, fn := range c.P.allFuncs("memdb") {
+		if fn.Blocks == nil || (fn.Origin() != nil && fn.Signature.Recv() == nil) {
+			continue
+		}
+		for _, b := range fn.Blocks {
+			for _, in := range b.Instrs {
+				fa, ok := in.(*ssa.FieldAddr)
+				if !ok || !isNodePtr(fa.X.Type()) || fieldName(fa) != "height" {
+					continue
+				}
+				nReads++
+				base := fn.Name()
+				if i := strings.Index(base, "["); i >= 0 {
+					base = base[:i]
+				}
+				if !allowed[base] {
+					c.Add("R20v", fnName(fn), "the height field is used by the balancing code only", fa.Pos(), false, "height is not a subtree size: ranks and counts must not be computed from it")
+				}
+			}
+		}
+	}
+	c.Count("R20v_height_accesses", nReads)
+	c.Min("R20v_height_accesses", 5)
+}}
+
+// R20z: per-pair effects of a multi-pair command are applied pair by pair.
+var rR20z = RuleRef{Name: "R20z", Doc: "pairs are applied left to right: an element record that an executor builds inside its per-argument loop (a sorted-set node for one score/member pair) is handed to the container inside that same loop iteration; collecting the records and inserting them after the loop lets a later pair of the same command be decided on a container that does not yet contain the earlier one (the same member twice in one ZADD would be stored twice)", Run: func(c *C) {
+	n := 0
+	for name, fn := range c.Facts.Executors {
+		if fn.Blocks == nil {
+			continue
+		}
+		loops := naturalLoops(fn)
+		if len(loops) == 0 {
+			continue
+		}
+		inLoop := map[*ssa.BasicBlock]map[*ssa.BasicBlock]bool{}
+		for h, body := range loops {
+			for b := range body {
+				// innermost loop wins: smaller body
+				if cur, ok := inLoop[b]; !ok || len(body) < len(cur) {
+					inLoop[b] = body
+				}
+			}
+			_ = h
+		}
+		ord := 0
+		for _, b := range fn.Blocks {
+			body := inLoop[b]
+			if body == nil {
+				continue
+			}
+			for _, in := range b.Instrs {
+				al, ok := in.(*ssa.Alloc)
+				if !ok || !al.Heap || al.Referrers() == nil {
+					continue
+				}
+				tn := namedOf(al.Type())
+				if tn != "SortedSetNode" && tn != "ListNode" {
+					continue
+				}
+				n++
+				ord++
+				handed, where := false, ""
+				for _, r := range *al.Referrers() {
+					call, ok := r.(*ssa.Call)
+					if !ok {
+						// through an interface conversion
+						if mi, ok := r.(*ssa.MakeInterface); ok && mi.Referrers() != nil {
+							for _, rr := range *mi.Referrers() {
+								if c2, ok := rr.(*ssa.Call); ok {
+									call = c2
+								}
+							}
+						}
+						if call == nil {
+							continue
+						}
+					}
+					cf := callee(call)
+					if cf == nil || cf.Signature.Recv() == nil {
+						continue
+					}
+					if _, isCont := c.containerType(cf.Signature.Recv().Type()); !isCont {
+						continue
+					}
+					if body[call.Block()] {
+						handed = true
+					} else {
+						where = c.pos(call.Pos())
+					}
+				}
+				detail := "the record is not handed to its container inside the loop that builds it"
+				if where != "" {
+					detail += " (it reaches the container only at " + where + ", after the loop)"
+				}
+				c.Add("R20z", fnName(fn), fmt.Sprintf("%s: element record #%d built in a loop enters the container in the same iteration", strings.ToUpper(name), ord), al.Pos(), handed, detail)
+			}
+		}
+	}
+	c.Count("R20z_records_built_in_loops", n)
+	c.Min("R20z_records_built_in_loops", 1)
+}}
